@@ -4,15 +4,9 @@
   inversion of fill_group_relative_indexes.  The verdicts themselves are compared on every run with concrete groups
   executed by the Lean AVM semantics (harness/groupcheck.py).
 -/
-import TealerModel.Detect
+import TealerModel.Group
 namespace Tealer.C13
-
-/-- configured offsets of one transaction: (offset, other transaction) -/
-abbrev Offsets := List (Int × Nat)
-
-/-- fill_group_relative_indexes: table[other] = list of (transaction, offset) with transaction.relative_indexes[offset] = other -/
-def fillRelative (txns : List (Nat × Offsets)) (other : Nat) : List (Nat × Int) :=
-  txns.flatMap fun (t, offs) => offs.filterMap fun (k, o) => if o == other then some (t, k) else none
+open Tealer.Group
 
 /-- the offset table is exactly the inverse of the configured offsets -/
 theorem C13_fill_inverse (txns : List (Nat × Offsets)) (other t : Nat) (k : Int) :
@@ -32,19 +26,6 @@ theorem C13_fill_inverse (txns : List (Nat × Offsets)) (other t : Nat) (k : Int
   · rintro ⟨offs, hm, hko⟩
     exact ⟨(t, offs), hm, (k, other), hko, by simp⟩
 
-/-- what the verdict loop looks at for one eligible transaction -/
-structure Checks where
-  ownLogicSig : Option Bool          -- contract_checks_its_field(logic_sig), when there is one
-  ownApplication : Option Bool
-  absoluteIndex : Option Nat
-  othersAbsolute : List Bool         -- contract_checks_txn_at_absolute_index for the other members' contracts
-  othersRelative : List Bool         -- contract_checks_using_relative_index along the configured offsets
-
-/-- detect_missing_tx_field_validations_group_complete for one eligible transaction: vulnerable unless cleared -/
-def vulnerable (c : Checks) : Bool :=
-  !(c.ownLogicSig == some true) && !(c.ownApplication == some true) &&
-  !(c.absoluteIndex.isSome && c.othersAbsolute.any id) && !(c.othersRelative.any id)
-
 /-- a transaction is cleared exactly when its own logic-sig or application, or another member through the configured
     absolute index or offset, excludes the value at every accepting exit -/
 theorem C13_cleared_iff (c : Checks) :
@@ -56,14 +37,73 @@ theorem C13_cleared_iff (c : Checks) :
     cases h3 : c.absoluteIndex.isSome <;> cases h4 : c.othersAbsolute.any id <;> cases h5 : c.othersRelative.any id <;>
     simp_all [List.any_eq_true]
 
-/-- leaf criterion: a contract "checks the field" iff every leaf block of the function is validated -/
-def contractChecks (leaves : List BlockCtx) (chk : Ctx → Bool) (absoluteIndex : Option Nat) : Bool :=
-  leaves.all fun c => validatedInBlock chk c absoluteIndex
-
 theorem C13_contract_checks (leaves : List BlockCtx) (chk : Ctx → Bool) (i : Option Nat) :
     contractChecks leaves chk i = false ↔ ∃ c ∈ leaves, validatedInBlock chk c i = false := by
   simp [contractChecks]
 
 example : vulnerable { ownLogicSig := some false, ownApplication := none, absoluteIndex := some 0, othersAbsolute := [true], othersRelative := [] } = false := by decide
+
+/-- the loop reports exactly the eligible members that nothing clears -/
+theorem C13_group_verdict_iff (det : DetType) (a : Answers) (txns : List GTxn) (i : Nat) :
+    i ∈ groupVerdict det a txns ↔ ∃ t ∈ txns, t.id = i ∧ eligible det t = true ∧ cleared a txns t = false := by
+  simp only [groupVerdict, List.mem_map, List.mem_filter, Bool.and_eq_true, Bool.not_eq_true']
+  constructor
+  · rintro ⟨t, ⟨hm, he, hc⟩, rfl⟩; exact ⟨t, hm, rfl, he, hc⟩
+  · rintro ⟨t, hm, rfl, he, hc⟩; exact ⟨t, ⟨hm, he, hc⟩, rfl⟩
+
+theorem find_id_of_mem {txns : List GTxn} (hn : (txns.map (·.id)).Nodup) {o : GTxn} (ho : o ∈ txns) :
+    txns.find? (·.id == o.id) = some o := by
+  induction txns with
+  | nil => cases ho
+  | cons x xs ih =>
+    simp only [List.map_cons, List.nodup_cons, List.mem_map, not_exists, not_and] at hn
+    rcases List.mem_cons.mp ho with rfl | h
+    · simp [List.find?]
+    · have hne : (x.id == o.id) = false := by
+        have := hn.1 o h
+        simp only [beq_eq_false_iff_ne, ne_eq]
+        exact fun e => this e.symm
+      simp only [List.find?, hne]
+      exact ih hn.2 h
+
+/-- with distinct transaction ids, a member is cleared exactly when: one of its own contracts excludes the value at every
+    accepting exit; or it has a configured absolute index and a contract of some member excludes the value for that index;
+    or some member configured an offset to it and a contract of that member excludes the value through that offset -/
+theorem C13_cleared_spec (a : Answers) (txns : List GTxn) (t : GTxn) (hn : (txns.map (·.id)).Nodup) :
+    cleared a txns t = true ↔
+      anyContract t (a.own t.id) = true ∨
+      (∃ i, t.absIndex = some i ∧ ∃ o ∈ txns, anyContract o (fun app => a.atAbs o.id app i) = true) ∨
+      (∃ o ∈ txns, ∃ k, (k, t.id) ∈ o.offsets ∧ anyContract o (fun app => a.atRel o.id app k) = true) := by
+  have hrel : clearedRel a txns t = true ↔
+      ∃ o ∈ txns, ∃ k, (k, t.id) ∈ o.offsets ∧ anyContract o (fun app => a.atRel o.id app k) = true := by
+    simp only [clearedRel, List.any_eq_true]
+    constructor
+    · rintro ⟨⟨oid, k⟩, hm, h⟩
+      obtain ⟨offs, hmo, hk⟩ := (C13_fill_inverse _ _ _ _).mp hm
+      obtain ⟨o, ho, heq⟩ := List.mem_map.mp hmo
+      simp only [Prod.mk.injEq] at heq
+      obtain ⟨rfl, rfl⟩ := heq
+      simp only [find_id_of_mem hn ho] at h
+      exact ⟨o, ho, k, hk, h⟩
+    · rintro ⟨o, ho, k, hk, h⟩
+      refine ⟨(o.id, k), (C13_fill_inverse _ _ _ _).mpr ⟨o.offsets, List.mem_map.mpr ⟨o, ho, rfl⟩, hk⟩, ?_⟩
+      simp only [find_id_of_mem hn ho]
+      exact h
+  have habs : clearedAbs a txns t = true ↔
+      ∃ i, t.absIndex = some i ∧ ∃ o ∈ txns, anyContract o (fun app => a.atAbs o.id app i) = true := by
+    unfold clearedAbs
+    cases h : t.absIndex with
+    | none => simp
+    | some i => simp [List.any_eq_true]
+  simp only [cleared, clearedOwn, Bool.or_eq_true, habs, hrel, or_assoc]
+
+/-- premises satisfiable / behaviour on a concrete group: T2 (id 2) is reached by T0 through offset +2 and cleared, whatever
+    the bystander T1 (offset +1, no check) says and wherever it is listed; T2 declares a logic-sig without a contract -/
+example :
+    let a : Answers := { own := fun _ _ => false, atAbs := fun _ _ _ => false, atRel := fun o _ k => o == 0 && k == 2 }
+    let t0 : GTxn := ⟨0, true, true, false, true, none, [(2, 2)]⟩
+    let t1 : GTxn := ⟨1, true, true, false, true, none, [(1, 2)]⟩
+    let t2 : GTxn := ⟨2, true, false, false, true, some 0, []⟩
+    groupVerdict .stateless a [t0, t1, t2] = [0, 1] ∧ groupVerdict .stateless a [t1, t0, t2] = [1, 0] := by decide
 
 end Tealer.C13
